@@ -1,0 +1,27 @@
+//go:build verif
+
+package config
+
+import "github.com/magiconair/properties"
+
+// Verification hooks (build tag verif): thin exported wrappers around unexported code so that the
+// correspondence harness in /verif can call the real thing in-process. No behaviour is changed.
+
+// VerifParseKVSlice exposes parseKVSlice.
+func VerifParseKVSlice(in string) ([]map[string]string, error) { return parseKVSlice(in) }
+
+// VerifLex exposes one step of the kvslice lexer.
+func VerifLex(s []rune) (typ string, val string, n int) {
+	t, v, n := lex(s)
+	return string(t), v, n
+}
+
+// VerifLoad exposes load: explicit command line (cmdline[0] is the program name), environment block,
+// environment prefixes and properties (may be nil).
+func VerifLoad(cmdline, environ, envprefix []string, props *properties.Properties) (*Config, error) {
+	loadCiphers()
+	return load(cmdline, environ, envprefix, props)
+}
+
+// VerifParse exposes parse (the -cfg/-v pre-pass over the command line).
+func VerifParse(args []string) (cmdline []string, path string, version bool, err error) { return parse(args) }
